@@ -57,7 +57,7 @@ func c11Chan(args []string) int {
 			} else {
 				rec["err"] = ""
 			}
-		case <-time.After(4 * time.Second):
+		case <-time.After(15 * time.Second):
 			rec["returned"] = false
 		}
 		rec["emits"] = emits
